@@ -56,7 +56,7 @@ def draw_case(data, tier):
             for s in sig:
                 s[1] = data.draw(st.sampled_from(chan_pool), label="chan")
         return {"mode": mode, "d": d, "shape": list(shape), "nlead": nlead, "batch": batch, "sig": sig, "g": gen.draw_g(data, d),
-                "future": data.draw(st.sampled_from([1, 1, 2]), label="future_steps"), "comp": data.draw(st.integers(0, 6), label="component"),
+                "future": data.draw(st.sampled_from([1, 1, 2]), label="future_steps"), "comp": data.draw(st.integers(-7, 6), label="component"),
                 "comp_slice": data.draw(st.booleans(), label="component_is_slice")}
     d = data.draw(st.sampled_from([2, 2, 3]), label="d")
     layer = data.draw(st.sampled_from(["ConvContract", "GroupNorm", "LayerNorm", "VN", "MaxNormPool", "ConvBlock"]), label="layer")
@@ -146,11 +146,21 @@ def _array_mode(case):
                         cols.append(x[ch, :, ..., comp])  # (fut, spatial)
             return cols
         ncomp = sum((c // fut) * d ** t[0] for t, c in sig)
-        lo = case["comp"] % ncomp
-        component = slice(lo, min(ncomp, lo + 2)) if case["comp_slice"] else lo
-        sel = list(range(ncomp))[component] if case["comp_slice"] else [lo]
+        lo = case["comp"] % ncomp if case["comp"] >= 0 else -((-case["comp"] - 1) % ncomp) - 1  # negative indices count from the end
+        if case["comp_slice"]:
+            component = slice(lo, min(ncomp, lo + 2)) if lo >= 0 else slice(lo, None if lo + 2 >= 0 else lo + 2)
+            sel = list(range(ncomp))[component]
+        else:
+            component = lo
+            sel = [list(range(ncomp))[lo]]
+        if lo < 0:
+            labels.append("negative_component")
+        if not sel:
+            sel = None
         labels.append("get_component")
-        if nlead == 1:
+        if sel is None:
+            pass
+        elif nlead == 1:
             got = np.asarray(mi.get_component(component, fut)[(0, 0)])
             cols = ref_component(list(blocks.items()))
             exp = np.concatenate([cols[s] for s in sel], axis=0)
